@@ -1,12 +1,15 @@
 ---------------------------- MODULE TypeEvalTrace ----------------------------
 (* Trace specification for C20.  Every line of the trace file is one observation of the real      *)
 (* checker on a realised case of TypeEval.tla:                                                    *)
-(*   {tid, case, env: {ver, plat},                                                                *)
-(*    real: {status, types (members of the inferred value of the call node), etypes (members of   *)
+(*   {tid, case, env: {ver (tuple(sys.version_info) as typed elements), plat},                    *)
+(*    real: {status ("ok" | "exception": an internal_error at the definition or the call, or the  *)
+(*           checker raised), rej (the diagnostics reported inside the evaluator's definition),   *)
+(*           twin ("none" | "ok" | "exception": the probe's condition in an ordinary function),   *)
+(*           types (members of the inferred value of the call node), etypes (members of   *)
 (*           the value Evaluator.evaluate returned), errs (messages of every UserRaisedError, in  *)
 (*           order), diag (messages the visitor reported at the call), pos: {a, b} (the positions *)
 (*           bind_arguments fed to the evaluator)},                                               *)
-(*    cpy: [{a: version/platform atom, v: what real CPython evaluates it to}]}                    *)
+(*    cpy: [{a: version/platform atom, v: what real CPython evaluates it to: "T" | "F" | "err"}]} *)
 (* TLC evaluates the documented semantics (RefObs, RefKind) and the implementation-shaped model   *)
 (* (ImplObs, ImplPos, ImplDiag) on the recorded case and judges the recorded real result.         *)
 EXTENDS TypeEval, Json, IOUtils
@@ -18,7 +21,7 @@ Say(tid, v) == PrintT(<<"VERDICT", tid, v>>)
 AnyMem == [v \in Vars |-> "Any"]
 
 \* the oracle's model of the PEP 484 checks agrees with real CPython on every recorded check
-OracleOK(o) == \A i \in 1..Len(o.cpy) : RefCond(o.case, o.env, AnyMem, o.cpy[i].a) = o.cpy[i].v
+OracleOK(o) == \A i \in 1..Len(o.cpy) : PyEnvEval(o.env, o.cpy[i].a) = o.cpy[i].v
 
 Judgement(o) ==
     LET c == o.case
@@ -47,13 +50,49 @@ Judgement(o) ==
         /\ IF o.real.diag = DiagOf(run.errs) /\ o.real.errs = run.errs THEN TRUE
            ELSE IF real = M THEN Say(o.tid, "drift:ImplDiag") ELSE TRUE
 
+\* Conditions are accepted / rejected as the specification says and the check does not raise; a
+\* named class only when the real code did exactly what the model of the unchanged code predicts.
+StatusJudgement(o) ==
+    LET c == o.case
+        env == o.env
+        must == RefMustReject(c, env)
+        rr == o.real.rej # << >>
+        rx == o.real.status # "ok"
+        mrej == ImplRejected(c, env, NoFix)
+        mcr == ImplCrashes(c, env, NoFix)
+        real == [types |-> ToSet(o.real.types), errs |-> ToSet(o.real.errs)]
+        realOK == ~rx /\ (IF must THEN rr ELSE (rr => RefMayReject(c, env)))
+    IN IF realOK
+       THEN /\ IF rr = mrej /\ ~mcr THEN TRUE ELSE Say(o.tid, "drift:ImplStatus")
+            \* the result of calling a rejected evaluator is not specified: only compared with the model
+            /\ IF rr /\ mrej /\ ~mcr /\ real # ObsOfRun(c, ImplRun(c, env, NoFix))
+               THEN Say(o.tid, "drift:ImplInvalid") ELSE TRUE
+       ELSE LET sc == StatusClass(c, env)
+                same == rr = mrej /\ rx = mcr /\ (rx \/ real = ObsOfRun(c, ImplRun(c, env, NoFix)))
+            IN IF same /\ sc # {} /\ "viol" \notin sc
+               THEN \A k \in sc : Say(o.tid, "dev:" \o k)
+               ELSE Say(o.tid, IF rx THEN "viol:CheckerRaised"
+                               ELSE IF must THEN "viol:InvalidConditionNotRejected"
+                               ELSE "viol:ValidConditionRejected")
+\* the probe's condition in ordinary code must not make the checker raise
+TwinAtom(c) == LET x == c.lines[1].c IN IF x.k = "not" THEN x.c ELSE x
+TwinJudgement(o) ==
+    IF o.real.twin = "none" THEN TRUE
+    ELSE LET m == ImplTwinRaises(o.env, TwinAtom(o.case)) IN
+         IF o.real.twin = "exception"
+         THEN (IF m THEN Say(o.tid, "dev:version-check-invalid-rhs-crashes-ordinary-code")
+                    ELSE Say(o.tid, "viol:OrdinaryCheckRaised"))
+         ELSE (IF m THEN Say(o.tid, "drift:ImplTwin") ELSE TRUE)
+
 TInit == l = 1 /\ case = Blank /\ stage = "trace"
 TNext ==
     /\ l <= Len(Obs)
     /\ LET o == Obs[l] IN
        IF ~OracleOK(o) THEN Say(o.tid, "oracle:sys-check")
-       ELSE IF o.real.status # "ok" THEN Say(o.tid, "viol:CheckerRaised")
-       ELSE Judgement(o)
+       ELSE /\ StatusJudgement(o)
+            /\ TwinJudgement(o)
+            /\ IF o.real.status = "ok" /\ o.real.rej = << >> /\ ~RefMustReject(o.case, o.env)
+               THEN Judgement(o) ELSE TRUE
     /\ l' = l + 1
     /\ UNCHANGED gvars
 =============================================================================
